@@ -470,7 +470,12 @@ func (p *parser) parseImpl() Expr {
 	}
 	if p.isOp("<==>") {
 		p.next()
-		y := p.parseOr()
+		var y Expr
+		if p.isIdent("forall") || p.isIdent("exists") || p.isIdent("let") {
+			y = p.parseExpr()
+		} else {
+			y = p.parseOr()
+		}
 		return &EBinary{Op: "<==>", X: x, Y: y}
 	}
 	return x
